@@ -236,7 +236,10 @@ def write_evidence(a, seed, units, mine, results, violations, undecided, known_h
     for n in mine:
         cf = results[n].get('c_file')
         if cf and os.path.exists(cf) and '__CPROVER_assume' in open(cf).read():
-            assumptions.add('%s: generated text contains __CPROVER_assume' % n)
+            if units[n].get('abstract') == 'sizes' and any(k.startswith('sz_loop_inv') for k in units[n]):
+                assumptions.add('%s: generated text contains __CPROVER_assume -- the loop abstraction by an inductive invariant: every assume(INV)/assume(loop condition) sits between an assertion that INV holds on loop entry and an assertion that one iteration from an arbitrary INV-state re-establishes it' % n)
+            else:
+                assumptions.add('%s: generated text contains __CPROVER_assume' % n)
     level = meta.get('level', 'proof')
     ev = {
         'property_id': a.prop, 'tier': a.tier, 'seed': seed, 'level': level,
